@@ -9,7 +9,7 @@
 From Coq Require Import Sorted.
 From TD Require Import Base.Prelude Model.Iter Model.View Model.Ops
   Proofs.ViewGeom Proofs.CellsGeom Proofs.Frame Proofs.OpsProofs Proofs.FlipProofs Proofs.CopyProofs
-  Proofs.TranslateProofs Proofs.SwapTrace Proofs.SortProofs.
+  Proofs.TranslateProofs Proofs.SwapTrace Proofs.SortProofs Proofs.SameAsOwned.
 
 (** the frame: fill and the swap family write only to cells of the receiver *)
 Theorem C04_frame_fill_and_swaps :
@@ -136,6 +136,72 @@ Theorem C04_fill_same_as_owned :
   exists b' b0', op_fill k v b x = Ok b' /\ op_fill KOwned v0 b0 x = Ok b0' /\ same_cells v b' v0 b0'.
 Proof. exact fill_same_as_owned. Qed.
 Print Assumptions C04_fill_same_as_owned.
+
+(** ... and so for every other mutating trait operation: flips, translate_with_wrap,
+    copy_within, copy / clone_from_slice, copy / clone_from_toodee and all the sorts - through a
+    view (any window, any stride) the cells of the rectangle end up exactly as the same call
+    leaves them on an owned array holding the same cells *)
+Theorem C04_flips_same_as_owned :
+  forall v b v0 b0, wf_view v -> fits v b -> wf_view v0 -> fits v0 b0 -> same_cells v b v0 b0 ->
+  (exists b' b0', op_flip_cols v b = Ok b' /\ op_flip_cols v0 b0 = Ok b0' /\ same_cells v b' v0 b0') /\
+  (exists b' b0', op_flip_rows v b = Ok b' /\ op_flip_rows v0 b0 = Ok b0' /\ same_cells v b' v0 b0').
+Proof. intros. split; [apply flip_cols_same_as_owned|apply flip_rows_same_as_owned]; assumption. Qed.
+Print Assumptions C04_flips_same_as_owned.
+
+Theorem C04_translate_same_as_owned :
+  forall v b v0 b0 (mc mr : N),
+  wf_view v -> fits v b -> wf_view v0 -> fits v0 b0 -> same_cells v b v0 b0 ->
+  (mc <= N.of_nat (vcols v))%N -> (mr <= N.of_nat (vrows v))%N ->
+  exists b' b0', op_translate v b mc mr = Ok b' /\ op_translate v0 b0 mc mr = Ok b0' /\ same_cells v b' v0 b0'.
+Proof. exact translate_same_as_owned. Qed.
+Print Assumptions C04_translate_same_as_owned.
+
+Theorem C04_copy_within_same_as_owned :
+  forall oc v b v0 b0 (x0 y0 x1 y1 dx dy : N),
+  wf_view v -> fits v b -> wf_view v0 -> fits v0 b0 -> same_cells v b v0 b0 ->
+  (x0 <= x1)%N -> (y0 <= y1)%N -> (x1 <= N.of_nat (vcols v))%N -> (y1 <= N.of_nat (vrows v))%N ->
+  (dx + (x1 - x0) <= N.of_nat (vcols v))%N -> (dy + (y1 - y0) <= N.of_nat (vrows v))%N ->
+  (N.of_nat (vcols v) < W)%N -> (N.of_nat (vrows v) < W)%N ->
+  exists b' b0', op_copy_within oc v b x0 y0 x1 y1 dx dy = Ok b' /\
+                 op_copy_within oc v0 b0 x0 y0 x1 y1 dx dy = Ok b0' /\ same_cells v b' v0 b0'.
+Proof. exact copy_within_same_as_owned. Qed.
+Print Assumptions C04_copy_within_same_as_owned.
+
+Theorem C04_copy_from_same_as_owned :
+  forall k v b v0 b0,
+  wf_view v -> fits v b -> (k = KOwned -> vstride v = vcols v) ->
+  wf_view v0 -> fits v0 b0 -> vstride v0 = vcols v0 -> same_cells v b v0 b0 ->
+  (forall src, length src = vcols v * vrows v ->
+     exists b' b0', op_copy_from_slice k v b src = Ok b' /\ op_copy_from_slice KOwned v0 b0 src = Ok b0' /\
+                    same_cells v b' v0 b0') /\
+  (forall srows, length srows = vrows v -> Forall (fun r => length r = vcols v) srows ->
+     exists b' b0', op_copy_from_toodee k v b (vcols v, vrows v) srows = Ok b' /\
+                    op_copy_from_toodee KOwned v0 b0 (vcols v0, vrows v0) srows = Ok b0' /\ same_cells v b' v0 b0').
+Proof.
+  intros. split; intros.
+  - apply copy_from_slice_same_as_owned; assumption.
+  - apply copy_from_toodee_same_as_owned; assumption.
+Qed.
+Print Assumptions C04_copy_from_same_as_owned.
+
+Theorem C04_sorts_same_as_owned :
+  forall k v b v0 b0 stable by_key (sigma : list nat),
+  wf_view v -> fits v b -> (k = KOwned -> vstride v = vcols v) ->
+  wf_view v0 -> fits v0 b0 -> vstride v0 = vcols v0 -> same_cells v b v0 b0 ->
+  (forall row : N, (row < N.of_nat (vrows v))%N ->
+     (stable = false -> Permutation.Permutation sigma (seq 0 (vcols v))) ->
+     exists b' b0', op_sort_by_row v b row stable by_key sigma = Ok b' /\
+                    op_sort_by_row v0 b0 row stable by_key sigma = Ok b0' /\ same_cells v b' v0 b0') /\
+  (forall col : N, (col < N.of_nat (vcols v))%N ->
+     (stable = false -> Permutation.Permutation sigma (seq 0 (vrows v))) ->
+     exists b' b0', op_sort_by_col k v b col stable by_key sigma = Ok b' /\
+                    op_sort_by_col KOwned v0 b0 col stable by_key sigma = Ok b0' /\ same_cells v b' v0 b0').
+Proof.
+  intros. split; intros.
+  - apply sort_by_row_same_as_owned; assumption.
+  - apply sort_by_col_same_as_owned; assumption.
+Qed.
+Print Assumptions C04_sorts_same_as_owned.
 
 (** mutable iteration: every slice rows_mut() yields and every cell cells_mut() yields lies
     inside the receiver, and no cell is yielded twice *)
